@@ -15,6 +15,7 @@ Configuration keys (props/CLI.json and the part configurations props/C??cli.json
   "commands": ["parse", "translate", "simplify", "analyze"]   families to run (default: all four)
   "runs": {"quick": n, "thorough": n}                          generated cases (split over the families)
   "examples": "all" | n                                        example cases (n: a seeded sample)
+  "only": ["parse program", ...]                               optional: keep only commands with one of these prefixes
 
 A disagreement is a VIOLATION whose replay file carries the argument vector and the input text
 (`bin/check CLI --replay <file>` re-runs both sides).  Recorded crash classes (F3a, F11) are modelled:
@@ -226,6 +227,11 @@ def extra(ctx, cfg, results):
             raise vlib.Broken(f"props: unknown command family {f!r} in the configuration")
     runs = cfg.get("runs", {"quick": 1500, "thorough": 30000})
     n_gen = runs.get(ctx.tier, runs.get("quick", 1500))
+    only = cfg.get("only")
+
+    def wanted(words):
+        key = " ".join(words) + " "
+        return only is None or any(key.startswith(o.strip() + " ") for o in only)
     exe = clilib.anthem_exe()
     r = clilib.rng(ctx, "cli")
     dist = {"by_command": {}, "sources": {}, "agreeing_panics": 0}
@@ -234,10 +240,10 @@ def extra(ctx, cfg, results):
         lines, source = [], []
         for ln in vlib.corpus_lines(["cli_run"]):
             words, _ = split_case(ln)
-            if words[0] in families:
+            if words[0] in families and wanted(words):
                 lines.append(ln)
                 source.append("corpus")
-        ex = example_cases(exe, families)
+        ex = [c for c in example_cases(exe, families) if wanted(c[0])]
         want = cfg.get("examples", "all")
         if want != "all" and len(ex) > int(want):
             ex = r.sample(ex, int(want))
@@ -247,9 +253,14 @@ def extra(ctx, cfg, results):
         total_w = sum(WEIGHT[f] for f in families)
         for f in families:
             n = max(1, n_gen * WEIGHT[f] // total_w)
-            for ln in vlib.generate("cli_gen_" + f, ctx.seed, n):
-                lines.append("cli_run\t" + ln.split("\t", 1)[1])
-                source.append("generated")
+            got = 0
+            # with an `only` filter: generate more and keep the first n that pass
+            for ln in vlib.generate("cli_gen_" + f, ctx.seed, n if only is None else 8 * n):
+                ln = "cli_run\t" + ln.split("\t", 1)[1]
+                if got < n and wanted(split_case(ln)[0]):
+                    lines.append(ln)
+                    source.append("generated")
+                    got += 1
         # --- both sides
         impl, model = run_both(lines, exe, scratch)
         ctx.evaluations += len(lines)
@@ -270,10 +281,7 @@ def extra(ctx, cfg, results):
             f"{dist['agreeing_panics']} agreeing panics")
         # --- sensitivity: on how many cases would running a NEIGHBOUR command have been noticed?
         sens_lines, owner = [], []
-        mism_set = set(mism)
         for i, ln in enumerate(lines):
-            if i in mism_set:
-                continue
             words, text = split_case(ln)
             arg_text = ln.split("\t", 1)[1]
             close = arg_text.index(")")
